@@ -43,6 +43,7 @@ type Daemon struct {
 	TCPPort  int      // >0: tcp-listener on 127.0.0.1:port
 	Peers    []string // tcp-peer addresses
 	LogLevel string
+	Inproc   bool // the binary is cmd/receptor-inproc: also configure its in-process work type "inproc"
 
 	mu       sync.Mutex
 	cmd      *exec.Cmd
@@ -82,6 +83,9 @@ func (d *Daemon) config() string {
 		fmt.Fprintf(&b, "- tcp-peer:\n    address: %s\n    redial: true\n", p)
 	}
 	fmt.Fprintf(&b, "- control-service:\n    service: control\n    filename: %s\n", d.Sock)
+	if d.Inproc {
+		b.WriteString("- work-inproc:\n    worktype: inproc\n")
+	}
 	for _, t := range d.Types {
 		fmt.Fprintf(&b, "- work-command:\n    worktype: %s\n    command: %s\n", t.Name, t.Command)
 		if t.Params != "" {
